@@ -564,6 +564,20 @@ impl Scenario for Sched {
         if rng.chance(1, 3) {
             parts.extend(s(&["-E", &rng.range(1, 255).to_string()]));
         }
+        if rng.chance(1, 6) {
+            // an output destination next to the check / view (with the filter it requires): accepted with
+            // a warning and ignored - in particular no second consumer of the reader's batches
+            let w = walk(&input);
+            if let Some(p0) = w.pkts.first() {
+                let f = Filter::Link(w.pkts[rng.usize_below(w.pkts.len())].rdh.link_id);
+                let _ = p0;
+                let mut pre = s(&["-o", "@OUT@"]);
+                pre.extend(f.args());
+                pre.extend(parts);
+                parts = pre;
+                label.push_str(" +ignored -o");
+            }
+        }
         let im = pick_input_mode(&mut rng);
         let mut base = specgen::spec(im, &parts, input);
         base.stats_ext = stats_ext;
@@ -1341,6 +1355,7 @@ impl Scenario for StatsTruth {
         let nl = rng.range(1, 6) as usize;
         let corpus_pick = if case % 10 == 9 { crate::corpus::pick(&mut rng, 300_000, true) } else { None };
         let from_corpus = corpus_pick.is_some();
+        let mut stave_errors = false;
         let src = if corpus_pick.is_some() { 1 } else { case % 3 };
         let input = match src {
             _ if corpus_pick.is_some() => corpus_pick.unwrap().1,
@@ -1355,8 +1370,27 @@ impl Scenario for StatsTruth {
                 gen_framed_words(&mut rng, n, mw, nl, 50, sane)
             }
             _ => {
-                let cfg = GenCfg::swarm(&mut rng, false);
-                gen_conforming(&cfg, &mut rng).bytes()
+                // a third in stave mode with corruption: ALPIDE frame errors, whose sub-codes ([E9003]..)
+                // only appear on the continuation lines of the message
+                stave_errors = rng.chance(1, 3);
+                let cfg = GenCfg::swarm(&mut rng, stave_errors);
+                let mut st = gen_conforming(&cfg, &mut rng);
+                if stave_errors {
+                    // (the stream stays well-framed and recognisable: same first RDH0, sizes consistent)
+                    let first8 = st.bytes()[..8.min(st.bytes().len())].to_vec();
+                    for _ in 0..rng.range(1, 4) {
+                        for _attempt in 0..20 {
+                            let mut probe = st.clone();
+                            let f = corrupt::corrupt_stream(&mut probe, &mut rng);
+                            let b = probe.bytes();
+                            if f != "excess_padding" && crate::corpus::well_framed(&b) && b.starts_with(&first8) {
+                                st = probe;
+                                break;
+                            }
+                        }
+                    }
+                }
+                st.bytes()
             }
         };
         let f = filter_from_walk(&input, &mut rng);
@@ -1370,6 +1404,7 @@ impl Scenario for StatsTruth {
                 // checks on arbitrary payloads are fine (errors are counted, not judged)
                 let m = if src == 0 { rng.usize_below(3) * 2 % 5 } else { rng.usize_below(4) };
                 let m = if src == 0 { [0usize, 2][m % 2] } else { m };
+                let m = if stave_errors { 4 } else { m };
                 parts = s(CHECK_MODES[m]);
                 analysed = true;
                 label = format!("{} | {ext}", CHECK_MODES[m].join(" "));
@@ -1498,10 +1533,25 @@ impl Scenario for ExitContract {
         let class;
         let mut input;
         let mut missing = false;
+        let mut checks_toml: Option<String> = None;
         match class_i {
-            0 | 1 => {
+            0 => {
                 class = "clean";
                 input = st.bytes();
+            }
+            1 => {
+                // clean data whose only finding is a failed user-configured count: the messages [E9001] /
+                // [E9002] come from the statistics side, not from a validator
+                class = if rng.chance(1, 2) { "errors" } else { "clean" };
+                input = st.bytes();
+                if class == "errors" {
+                    let n = st.total_packets() as u64;
+                    checks_toml = Some(match rng.below(3) {
+                        0 => format!("cdps = {}\n", n + 1 + rng.below(5)),
+                        1 => format!("cdps = {}\n", n.saturating_sub(1 + rng.below(3))),
+                        _ => format!("cdps = {}\ntriggers_pht = {}\n", n + 1, 100_000 + rng.below(1000)),
+                    });
+                }
             }
             2 | 3 => {
                 class = "errors";
@@ -1565,6 +1615,9 @@ impl Scenario for ExitContract {
         if let Some(n) = exit_code {
             parts.extend(s(&["-E", &n.to_string()]));
         }
+        if checks_toml.is_some() {
+            parts.extend(s(&["-c", "@CHECKS@"]));
+        }
         let ext = if rng.chance(1, 2) { "json" } else { "toml" };
         parts.extend(s(&["-S", "@STATS@", "-D", ext]));
         let im = if missing { InputMode::File } else { pick_input_mode(&mut rng) };
@@ -1572,6 +1625,7 @@ impl Scenario for ExitContract {
             let mut p = parts.clone();
             p.extend(extra.iter().cloned());
             let mut sp = specgen::spec(im.clone(), &p, input.clone());
+            sp.custom_checks_toml = checks_toml.clone();
             if missing {
                 sp.argv[0] = "@IN@.does-not-exist".to_string();
             }
@@ -1586,7 +1640,11 @@ impl Scenario for ExitContract {
         specs.push(mk(&s(&["-m"]), &mut rng));
         kinds.push("mute".into());
         // code lists: prefixes of other codes, absent codes
-        let lists = ["4", "44", "440 441 442", "9", "99", "991 992", "1", "10", "11", "10 11", "70 71 72 73", "30 40 50 60", "100", "7", "74 75"];
+        let lists: Vec<&str> = if checks_toml.is_some() {
+            vec!["9001", "9002", "9001 9002", "900", "10 900 9001", "9", "99", "90"]
+        } else {
+            vec!["4", "44", "440 441 442", "9", "99", "991 992", "1", "10", "11", "10 11", "70 71 72 73", "30 40 50 60", "100", "7", "74 75"]
+        };
         for _ in 0..2 {
             let l = *rng.pick(&lists);
             let mut a = vec!["-w".to_string()];
@@ -1661,6 +1719,10 @@ fn make_rejected(rng: &mut Rng) -> Trial {
     // a valid -S / -o next to the invalid part, so that "no output written" is observable
     if !parts.iter().any(|a| a == "-S" || a == "-D") && rng.chance(1, 2) {
         parts.extend(s(&["-S", "@STATS@", "-D", "json"]));
+    }
+    // the template that -g writes into the current directory is output too
+    if rng.chance(1, 3) && name != "unknown subcommand" {
+        parts.push("-g".into());
     }
     let im = pick_input_mode(rng);
     let mut spec = specgen::spec(im, &parts, input);
